@@ -65,7 +65,11 @@ type rootNodeLoc struct {
 	// The rootNodeLoc fields are protected by Collection.rootLock.
 	refs int64 // Reference counter.
 	root *nodeLoc
-	next *rootNodeLoc // For free-list tracking.
+
+	// Set by rootCAS() once a newer version has replaced this one, so
+	// some of our nodes may be shared with that newer version.
+	superseded bool
+	next       *rootNodeLoc // For free-list tracking.
 
 	reclaimMark node // Address is used as a sentinel.
 
@@ -93,7 +97,6 @@ func (t *Collection) closeCollection() { // Just "close" is a keyword.
 	r := t.root
 	t.root = nil
 	t.rootLock.Unlock()
-	t.reclaimMarkUpdate(r.root, nil, &r.reclaimMark)
 	if r != nil {
 		t.rootDecRef(r)
 	}
@@ -785,6 +788,9 @@ func (t *Collection) rootCAS(prev, next *rootNodeLoc) bool {
 		return false // TODO: Callers need to release resources.
 	}
 	t.root = next
+	if prev != nil {
+		prev.superseded = true
+	}
 
 	if prev != nil && prev.refs > 2 {
 		// Since the prev is in-use, hook up its chain to disallow
@@ -823,6 +829,11 @@ func (t *Collection) rootDecRefUnlocked(r *rootNodeLoc) {
 	}
 	if r.chainedCollection != nil && r.chainedRootNodeLoc != nil {
 		r.chainedCollection.rootDecRefUnlocked(r.chainedRootNodeLoc)
+	}
+	if !r.superseded {
+		// Last version of this tree and nobody can reach it any more,
+		// so every cached node still in it can go.
+		t.markAllUnlocked(r.root.Node(), &r.reclaimMark)
 	}
 	t.reclaimNodesUnlocked(r.root.Node(), &r.reclaimLater, &r.reclaimMark)
 	for i := 0; i < len(r.reclaimLater); i++ {
